@@ -838,7 +838,9 @@ func fixedTableLayout(box *bo.BoxFields) {
 				}
 			}
 			if len(columnsWithoutWidth) != 0 {
-				widthPerColumn := width / pr.Float(len(columnsWithoutWidth))
+				// the cell may be narrower than the spanned columns that already
+				// have a width: the others get no width, not a negative one
+				widthPerColumn := pr.Max(0, width) / pr.Float(len(columnsWithoutWidth))
 				for _, j := range columnsWithoutWidth {
 					columnWidths[j] = widthPerColumn
 				}
